@@ -349,6 +349,13 @@ class Sym:
                 inner = strip(t[2][0])
                 if inner[0] == "call" and short(inner[1]) in ("TryInto::try_into", "TryFrom::try_from"):
                     return self.poly(inner[2][0])
+            if s == "mem::size_of" and not t[2]:
+                blk = self.an.body.blocks[t[3]]["t"]
+                ga = blk.get("gargs") or []
+                if len(ga) == 1 and ga[0]["k"] in ("int", "float") :
+                    return Poly.const(ga[0]["w"] // 8)
+                if len(ga) == 1 and ga[0]["k"] == "bool":
+                    return Poly.const(1)
             if s.endswith("::saturating_sub") and len(t[2]) == 2:
                 a, b = self.poly(t[2][0]), self.poly(t[2][1])
                 if a is not None and b is not None:
